@@ -49,7 +49,7 @@ static uint64_t program(const Shared &sh, uint64_t seed, int tid, int iters)
         const ST::string &s = sh.strs[r.below(sh.strs.size())];
         const ST::string &t = sh.strs[r.below(sh.strs.size())];
         try {
-        switch (r.below(28)) {
+        switch (r.below(30)) {
         case 0: d.add(uint64_t(s.compare(t) < 0) + 2 * uint64_t(s.compare_i(t) == 0) + 4 * uint64_t(s == t)); break;
         case 1: d.add(uint64_t(s.find(t.left(2))) ^ uint64_t(s.find_last('a')) ^ uint64_t(s.contains("ta"))); break;
         case 2: d.add(ST::hash()(s) ^ ST::hash_i()(t)); break;
@@ -82,6 +82,13 @@ static uint64_t program(const Shared &sh, uint64_t seed, int tid, int iters)
                    ST::utf16_buffer w = s.to_utf16(); ST::utf16_buffer wm(std::move(w)); w.clear(); w.allocate(2, u'x'); d.add(ST::utf16_to_utf8(w)); d.add(ST::utf16_to_utf8(wm)); break; }
         // moved-from objects assigned to, streams moved and cleared
         case 27: { ST::string a = s, b; b = std::move(a); a = t; d.add(a); d.add(b); ST::string_stream x; x << s; ST::string_stream y; y = std::move(x); x << 'q'; d.add(x.to_string()); d.add(y.to_string()); break; }
+        // case-insensitive searching, slicing, splitting and replacing on SHARED strings (char and string needles)
+        case 28: d.add(uint64_t(s.find('a', ST::case_insensitive)) ^ uint64_t(s.find_last('T', ST::case_insensitive)) ^ uint64_t(s.contains('q', ST::case_insensitive))
+                       ^ uint64_t(s.find(t.left(2), ST::case_insensitive)) ^ uint64_t(s.find_last("TA", ST::case_insensitive)) ^ uint64_t(s.starts_with(t.left(1), ST::case_insensitive))
+                       ^ uint64_t(s.ends_with("z", ST::case_insensitive)) ^ uint64_t(s.compare_i(t) < 0) ^ uint64_t(s.compare_ni(t, 3) == 0)); break;
+        case 29: d.add(s.before_first('A', ST::case_insensitive)); d.add(s.after_last("ta", ST::case_insensitive)); d.add(s.replace("A", "#", ST::case_insensitive));
+                 for (const ST::string &p : s.split("e", 3, ST::case_insensitive)) d.add(p); for (const ST::string &p : t.split('E', 2, ST::case_insensitive)) d.add(p);
+                 d.add(uint64_t(ST::hash_i()(s)) ^ uint64_t(ST::less_i()(s, t)) ^ uint64_t(ST::equal_i()(s, t))); break;
         case 23: { ST::char_buffer cb = own.to_utf8(); ST::char_buffer cc(cb); cc.allocate(3, 'z'); d.add(cb); d.add(cc); ST::utf16_buffer w = ST::utf8_to_utf16(cb); d.add(ST::utf16_to_utf8(w)); break; }
         }
         } catch (const ST::unicode_error &) { d.add(uint64_t(0xE1)); own = "reset"; }
